@@ -155,15 +155,27 @@ func (q c25req) h1bytes() []byte {
 	return b.Bytes()
 }
 
-func (q c25req) h2bytes() []byte {
+// c25h2conn is the client side of one HTTP/2 connection: one HPACK encoder (dynamic table) for
+// all requests, odd stream ids.
+type c25h2conn struct {
+	hb  bytes.Buffer
+	enc *hpack.Encoder
+	sid uint32
+}
+
+// request returns the bytes of the next request (the first one is preceded by the preface).
+func (cl *c25h2conn) request(q c25req) []byte {
 	var w bytes.Buffer
-	w.WriteString(bfe_http2.ClientPreface)
 	fr := bfe_http2.NewFramer(&w, nil)
-	fr.WriteSettings()
-	fr.WriteSettingsAck()
-	var hb bytes.Buffer
-	enc := hpack.NewEncoder(&hb)
-	put := func(n, v string) { enc.WriteField(hpack.HeaderField{Name: n, Value: v}) }
+	if cl.enc == nil {
+		cl.enc = hpack.NewEncoder(&cl.hb)
+		cl.sid = 1
+		w.WriteString(bfe_http2.ClientPreface)
+		fr.WriteSettings()
+		fr.WriteSettingsAck()
+	}
+	cl.hb.Reset()
+	put := func(n, v string) { cl.enc.WriteField(hpack.HeaderField{Name: n, Value: v}) }
 	put(":method", q.method)
 	put(":scheme", "https")
 	if !q.viaHost {
@@ -179,16 +191,33 @@ func (q c25req) h2bytes() []byte {
 	if q.bodyMode == 1 {
 		put("content-length", strconv.Itoa(len(q.body)))
 	}
-	fr.WriteHeaders(bfe_http2.HeadersFrameParam{StreamID: 1, BlockFragment: hb.Bytes(), EndStream: q.bodyMode == 0, EndHeaders: true})
+	fr.WriteHeaders(bfe_http2.HeadersFrameParam{StreamID: cl.sid, BlockFragment: cl.hb.Bytes(), EndStream: q.bodyMode == 0, EndHeaders: true})
 	if q.bodyMode != 0 {
-		fr.WriteData(1, true, []byte(q.body))
+		fr.WriteData(cl.sid, true, []byte(q.body))
 	}
+	cl.sid += 2
 	return w.Bytes()
 }
 
+func (q c25req) h2bytes() []byte { return (&c25h2conn{}).request(q) }
+
 var c25spdyDict []byte
 
-func (q c25req) spdybytes() []byte {
+// c25spdyconn is the client side of one SPDY connection: one zlib stream for all header blocks.
+type c25spdyconn struct {
+	z   bytes.Buffer
+	zw  *zlib.Writer
+	sid uint32
+}
+
+func (cl *c25spdyconn) request(q c25req) []byte {
+	if cl.zw == nil {
+		zw, err := zlib.NewWriterLevelDict(&cl.z, zlib.HuffmanOnly, c25spdyDict)
+		if err != nil {
+			panic(err)
+		}
+		cl.zw, cl.sid = zw, 1
+	}
 	// name/value header block (SPDY/3: 32 bit counts and lengths), in the stated order
 	var blk bytes.Buffer
 	var pairs []c25field
@@ -205,13 +234,9 @@ func (q c25req) spdybytes() []byte {
 		binary.Write(&blk, binary.BigEndian, uint32(len(p.value)))
 		blk.WriteString(p.value)
 	}
-	var z bytes.Buffer
-	zw, err := zlib.NewWriterLevelDict(&z, zlib.HuffmanOnly, c25spdyDict)
-	if err != nil {
-		panic(err)
-	}
-	zw.Write(blk.Bytes())
-	zw.Flush()
+	cl.z.Reset()
+	cl.zw.Write(blk.Bytes())
+	cl.zw.Flush()
 	var w bytes.Buffer
 	// SYN_STREAM control frame
 	binary.Write(&w, binary.BigEndian, uint16(0x8000|bfe_spdy.Version))
@@ -220,19 +245,22 @@ func (q c25req) spdybytes() []byte {
 	if q.bodyMode == 0 {
 		flags = 1 // FLAG_FIN
 	}
-	binary.Write(&w, binary.BigEndian, flags<<24|uint32(10+z.Len()))
-	binary.Write(&w, binary.BigEndian, uint32(1)) // stream id
+	binary.Write(&w, binary.BigEndian, flags<<24|uint32(10+cl.z.Len()))
+	binary.Write(&w, binary.BigEndian, cl.sid)    // stream id
 	binary.Write(&w, binary.BigEndian, uint32(0)) // associated stream
 	w.WriteByte(0)                                // priority
 	w.WriteByte(0)                                // slot
-	w.Write(z.Bytes())
+	w.Write(cl.z.Bytes())
 	if q.bodyMode != 0 {
-		binary.Write(&w, binary.BigEndian, uint32(1))
+		binary.Write(&w, binary.BigEndian, cl.sid)
 		binary.Write(&w, binary.BigEndian, uint32(1)<<24|uint32(len(q.body))) // FLAG_FIN
 		w.WriteString(q.body)
 	}
+	cl.sid += 2
 	return w.Bytes()
 }
+
+func (q c25req) spdybytes() []byte { return (&c25spdyconn{}).request(q) }
 
 // ---- strict reference parser (RFC 7230 section 3) ---------------------------------------------------
 
@@ -486,10 +514,10 @@ func c25snapshot(req *bfe_http.Request) c25snap {
 		}
 	}
 	for k, vv := range req.Header {
+		s.rawKeys = append(s.rawKeys, k)
 		if c25own[strings.ToLower(k)] {
 			continue
 		}
-		s.rawKeys = append(s.rawKeys, k)
 		for _, v := range vv {
 			s.fields = append(s.fields, strings.ToLower(k)+"\x00"+c25san(v))
 		}
@@ -520,7 +548,7 @@ func c25classOf(elem string) string {
 	return "other"
 }
 
-var c25rank = map[string]int{"split": 5, "multiple-requests": 5, "inject": 4, "malformed": 3, "differs": 2}
+var c25rank = map[string]int{"split": 5, "multiple-requests": 5, "inject": 4, "hop": 4, "not": 4, "malformed": 3, "differs": 2, "noncanonical": 1}
 
 func c25worse(a, b c25verdict) c25verdict {
 	ra := c25rank[strings.SplitN(a.kind, "-", 2)[0]]
@@ -715,6 +743,8 @@ func c25apply(door string, sh int, muts []c25mut) (q c25req, ok bool) {
 			q.fields[1].name = c25place("x-hostile", m.form, t)
 		case "value":
 			q.fields[1].value = c25place("value", m.form, t)
+		case "trailer": // the key list of a Trailer announcement (Request.write emits it with the chunked framing)
+			q.fields = append(q.fields, c25field{"trailer", c25place("x-trl", m.form, t)})
 		}
 	}
 	return q, true
@@ -737,17 +767,33 @@ type c25result struct {
 }
 
 func (c *c25ctx) exec(door string, wire []byte) c25result {
-	var res c25result
+	return c.execSeq(door, [][]byte{wire})[0]
+}
+
+// execSeq sends the requests of one connection one after the other (quiescence in between, so
+// attempts and snapshots belong to the request just sent) and returns one result per request.
+func (c *c25ctx) execSeq(door string, wires [][]byte) []c25result {
+	out := make([]c25result, len(wires))
 	body := func(e *h1env) {
+		var snaps []c25snap
 		e.defaultAnswer = &h1answer{Before: func(req *bfe_http.Request) {
 			s := c25snapshot(req)
 			e.mu.Lock()
-			res.snaps = append(res.snaps, s)
+			snaps = append(snaps, s)
 			e.mu.Unlock()
 		}}
-		e.send(string(wire))
-		res.out = e.out()
-		res.atts = e.Attempts()
+		for i, wire := range wires {
+			na, no := len(e.Attempts()), len(e.out())
+			e.mu.Lock()
+			ns := len(snaps)
+			e.mu.Unlock()
+			e.send(string(wire))
+			out[i].atts = e.Attempts()[na:]
+			out[i].out = e.out()[no:]
+			e.mu.Lock()
+			out[i].snaps = append([]c25snap(nil), snaps[ns:]...)
+			e.mu.Unlock()
+		}
 	}
 	p, pv := vk.Guard(func() {
 		switch door {
@@ -760,9 +806,11 @@ func (c *c25ctx) exec(door string, wire []byte) c25result {
 		}
 	})
 	if p {
-		res.panicked = pv
+		for i := range out {
+			out[i].panicked = pv
+		}
 	}
-	return res
+	return out
 }
 
 // c25clientView: which field names did the client send (nil,false = cannot be said: h1 bytes that
@@ -809,15 +857,21 @@ func (c *c25ctx) evaluate(door string, q c25req) (v c25verdict, outcome string, 
 		wire = q.spdybytes()
 	}
 	res = c.exec(door, wire)
+	v, outcome = c25judgeStep(door, q, wire, res)
+	return
+}
+
+// c25judgeStep applies the oracle to what one client request produced.
+func c25judgeStep(door string, q c25req, wire []byte, res c25result) (v c25verdict, outcome string) {
 	if res.panicked != "" {
-		return c25verdict{kind: "panic", detail: res.panicked}, "panic", res, wire
+		return c25verdict{kind: "panic", detail: res.panicked}, "panic"
 	}
 	names, body, known := c25clientView(door, q, wire)
 	if len(res.atts) == 0 {
-		return c25verdict{}, "not-forwarded", res, wire
+		return c25verdict{}, "not-forwarded"
 	}
 	if len(res.atts) > 1 && known {
-		return c25verdict{kind: "multiple-requests", detail: fmt.Sprintf("%d backend requests for one client request", len(res.atts))}, "forwarded", res, wire
+		return c25verdict{kind: "multiple-requests", detail: fmt.Sprintf("%d backend requests for one client request", len(res.atts))}, "forwarded"
 	}
 	for i, a := range res.atts {
 		if a.Err != "" {
@@ -835,6 +889,16 @@ func (c *c25ctx) evaluate(door string, q c25req) (v c25verdict, outcome string, 
 			sp = &res.snaps[i]
 		}
 		v = c25worse(v, c25judge(a.Raw, sp, names, body, known))
+		if sp != nil {
+			// supporting invariant: every key of the Header map handed to the proxy is canonical
+			// (all removal code addresses the map by canonical key)
+			for _, k := range sp.rawKeys {
+				if bfe_http.CanonicalHeaderKey(k) != k {
+					v = c25worse(v, c25verdict{kind: "noncanonical-key", detail: fmt.Sprintf("Header key %q of the accepted request is not canonical (%q)", k, bfe_http.CanonicalHeaderKey(k))})
+					break
+				}
+			}
+		}
 	}
 	if outcome == "" {
 		outcome = "forwarded"
@@ -961,6 +1025,143 @@ func (c *c25ctx) runCase(door string, sh int, muts []c25mut) {
 	c.r.Violation(sig, caseID, c25detail(door, q, v, res, wire))
 }
 
+// ---- connection histories --------------------------------------------------------------------------
+//
+// Per-connection state of the front ends (HTTP/2: canonical-name cache and HPACK table; SPDY: one
+// zlib stream; HTTP/1: keep-alive) must not change what reaches the backend: a connection first
+// carries N distinct filler header names (none of them in bfe_http2's static common-name table),
+// then a probe request with hop-by-hop / connection-specific fields.
+
+type c25probe struct {
+	name     string
+	fields   []c25field
+	refuseH2 bool   // RFC 7540 8.1.2.2: malformed over HTTP/2, must not be forwarded
+	skip     string // doors on which the probe is not sent
+}
+
+var c25probes = []c25probe{
+	{"connection-close", []c25field{{"connection", "close"}}, true, ""},
+	{"connection-nominates", []c25field{{"connection", "x-foo"}, {"x-foo", "1"}}, true, ""},
+	{"h2c-upgrade", []c25field{{"connection", "upgrade, http2-settings"}, {"upgrade", "h2c"}, {"http2-settings", "AAMAAABkAAQAAP__"}}, true, ""},
+	{"keep-alive", []c25field{{"keep-alive", "timeout=5"}}, true, ""},
+	{"proxy-connection", []c25field{{"proxy-connection", "keep-alive"}}, true, ""},
+	{"transfer-encoding", []c25field{{"transfer-encoding", "chunked"}}, true, "h1"},
+	{"upgrade", []c25field{{"upgrade", "websocket"}}, true, ""},
+	{"te-gzip", []c25field{{"te", "gzip"}}, true, ""},
+	{"te-trailers", []c25field{{"te", "trailers"}}, false, ""},
+	{"proxy-authorization", []c25field{{"proxy-authorization", "Basic eDp5"}}, false, ""},
+	{"proxy-authenticate", []c25field{{"proxy-authenticate", "Basic"}}, false, ""},
+	{"plain", []c25field{{"x-probe", "1"}}, false, ""},
+}
+
+// c25hygiene: the hop-by-hop clause on a well-formed backend request ("" = clean).
+func c25hygiene(m c25msg, q c25req) string {
+	nominated := map[string]bool{}
+	for _, f := range q.fields {
+		if strings.EqualFold(f.name, "connection") {
+			for _, t := range strings.Split(f.value, ",") {
+				nominated[strings.ToLower(strings.TrimSpace(t))] = true
+			}
+		}
+	}
+	for _, f := range m.fields {
+		ln := strings.ToLower(f.name)
+		switch {
+		case ln == "connection", ln == "keep-alive", ln == "proxy-authenticate", ln == "proxy-authorization", ln == "upgrade":
+			return fmt.Sprintf("hop-by-hop field line %q reached the backend", f.name+": "+f.value)
+		case ln == "te" && strings.ToLower(f.value) != "trailers":
+			return fmt.Sprintf("field line %q (TE other than trailers) reached the backend", f.name+": "+f.value)
+		case ln == "transfer-encoding" && q.bodyMode != 2:
+			return fmt.Sprintf("field line %q reached the backend and is not bfe's own framing", f.name+": "+f.value)
+		case nominated[ln] && !c25own[ln]:
+			return fmt.Sprintf("field line %q, nominated by the client's Connection field, reached the backend", f.name+": "+f.value)
+		}
+	}
+	return ""
+}
+
+func (c *c25ctx) runHistory(door string, n int, dist string, pre bool, pr c25probe) {
+	if strings.Contains(pr.skip, door) {
+		return
+	}
+	caseID := vk.Key("hist", door, n, dist, pre, pr.name)
+	if !c.r.Case(caseID) {
+		return
+	}
+	type step struct {
+		q     c25req
+		probe bool
+	}
+	var steps []step
+	mk := func(fields []c25field) c25req {
+		return c25req{method: "GET", path: fmt.Sprintf("/s%d", len(steps)), authority: "example.org", fields: fields}
+	}
+	if pre {
+		steps = append(steps, step{mk(pr.fields), true})
+	}
+	per := n
+	switch dist {
+	case "by16":
+		per = 16
+	case "each":
+		per = 1
+	}
+	for i := 0; i < n; i += per {
+		var fs []c25field
+		for j := i; j < i+per && j < n; j++ {
+			fs = append(fs, c25field{fmt.Sprintf("x-fill-%03d", j), "v"})
+		}
+		steps = append(steps, step{mk(fs), false})
+	}
+	steps = append(steps, step{mk(pr.fields), true})
+	var h2 c25h2conn
+	var sp c25spdyconn
+	wires := make([][]byte, len(steps))
+	for i, st := range steps {
+		switch door {
+		case "h1":
+			wires[i] = st.q.h1bytes()
+		case "h2":
+			wires[i] = h2.request(st.q)
+		default:
+			wires[i] = sp.request(st.q)
+		}
+	}
+	results := c.execSeq(door, wires)
+	c.r.Nontrivial(caseID)
+	for i, st := range steps {
+		res := results[i]
+		v, outcome := c25judgeStep(door, st.q, wires[i], res)
+		what := "filler"
+		if st.probe {
+			what = pr.name
+		}
+		if len(res.atts) > 0 && res.panicked == "" {
+			if st.probe && door == "h2" && pr.refuseH2 {
+				v = c25worse(v, c25verdict{kind: "not-refused", detail: "a request with connection-specific header fields (RFC 7540 8.1.2.2) was forwarded"})
+			}
+			for _, a := range res.atts {
+				if m, _, where, _ := c25strict(a.Raw); where == "" && a.Err == "" {
+					if bad := c25hygiene(m, st.q); bad != "" {
+						v = c25worse(v, c25verdict{kind: "hop-forwarded", detail: bad})
+					}
+				}
+			}
+		}
+		if v.kind == "" {
+			c.r.Outcome(door + ":hist:" + what + ":" + outcome + ":holds")
+			continue
+		}
+		c.r.Outcome(door + ":hist:" + what + ":" + outcome + ":" + v.kind)
+		var raws []string
+		for _, a := range res.atts {
+			raws = append(raws, strconv.Quote(string(a.Raw)))
+		}
+		c.r.Violation(door+":hist:"+what+":"+c25sev(v.kind), caseID,
+			fmt.Sprintf("door %s, request %d of %d on one connection (%d filler names before it, %s) client %s => backend bytes %s :: %s", door, i+1, len(steps), n, dist, st.q.String(), strings.Join(raws, " | "), v.detail))
+	}
+}
+
 func TestVerifC25(t *testing.T) {
 	r := vk.Start(t, "C25")
 	defer r.Finish()
@@ -984,13 +1185,18 @@ func TestVerifC25(t *testing.T) {
 		}
 	}
 	// thorough: every byte value 0..255 as a single token at every site and form
-	allSingles := singles
+	allSingles := append([]c25mut{}, singles...)
+	for _, form := range c25forms { // single placements only: the Trailer announcement
+		for _, tk := range toks {
+			allSingles = append(allSingles, c25mut{"trailer", form, tk})
+		}
+	}
 	if r.Thorough() {
 		named := map[string]bool{}
 		for _, tk := range toks {
 			named[tk.s] = true
 		}
-		for _, site := range c25sites {
+		for _, site := range append(append([]string{}, c25sites...), "trailer") {
 			for _, form := range c25forms {
 				for b := 0; b < 256; b++ {
 					if named[string([]byte{byte(b)})] {
@@ -1038,6 +1244,31 @@ func TestVerifC25(t *testing.T) {
 					continue
 				}
 				c.runCase(door, sh, []c25mut{m})
+			}
+		}
+	}
+	// connection histories
+	fills := []int{0, 1, 31, 32, 33, 64}
+	dists := []string{"one", "by16"}
+	if r.Thorough() {
+		fills = []int{0, 1, 2, 15, 16, 17, 31, 32, 33, 34, 63, 64, 65, 100, 128}
+		dists = []string{"one", "by16", "each"}
+	}
+	for _, door := range doors {
+		for _, n := range fills {
+			for _, dist := range dists {
+				if n == 0 && dist != "one" {
+					continue
+				}
+				for _, pre := range []bool{false, true} {
+					for _, pr := range c25probes {
+						idx++
+						if !r.Mine(idx) {
+							continue
+						}
+						c.runHistory(door, n, dist, pre, pr)
+					}
+				}
 			}
 		}
 	}
